@@ -272,14 +272,20 @@ inline Flat crop(Flat const& f, long x0, long y0, long dx, long dy)
     return c;
 }
 // "" when equal; else a short description of the first difference
+// Pixels the file under test leaves undefined (e.g. skipped by a BMP RLE delta escape): whole-image comparisons ignore them.
+struct UndefMask { long w = 0, h = 0; std::vector<char> px; };
+inline UndefMask& undef_mask() { static UndefMask m; return m; }
 inline std::string diff(Flat const& a, Flat const& b, double tol = 0)
 {
+    UndefMask const& um = undef_mask();
+    bool const masked = !um.px.empty() && um.w == a.w && um.h == a.h;
     if (a.w != b.w || a.h != b.h) return std::string(vh::S() << "dims " << a.w << "x" << a.h << " vs " << b.w << "x" << b.h);
     if (a.ch != b.ch) return std::string(vh::S() << "channels " << a.ch << " vs " << b.ch);
     long nd = 0; std::string first;
     for (size_t i = 0; i < a.v.size(); ++i)
     {
         double d = a.v[i] - b.v[i]; if (d < 0) d = -d;
+        if (masked && um.px[size_t(long(i) / a.ch)]) continue;
         if (d > tol || d != d)
         {
             if (!nd)
